@@ -168,6 +168,16 @@ ApplyDtype(e) ==
     ELSE IF FVecBits(e.ref32, e.ref64) THEN <<"dtype/single-equals-double", ToString(e.ref32)>>
     ELSE <<>>
 
+\* composite models: the request reaches every compiled part as it reaches a plain model (whose own handling of the
+\* spelling is judged by ApplyDtype)
+ApplyDtypeC(e) ==
+    IF DtypeOf(e.spelling).bits = 0 THEN <<"harness-unknown-spelling", e.spelling>>
+    ELSE IF e.raised THEN <<"dtype/raised", e.error>>
+    ELSE IF Len(e.part_bits) < 2 THEN <<"harness-composite-parts", ToString(e.part_bits)>>
+    ELSE IF e.model_bits # e.plain_bits \/ \E k \in 1..Len(e.part_bits) : e.part_bits[k] # e.plain_bits
+         THEN <<"dtype/composite-parts", ToString(<<e.model, e.spelling, "plain model", e.plain_bits, "composite", e.model_bits, e.part_bits>>)>>
+    ELSE <<>>
+
 \* ------------------------------------------------------------ numeric agreement
 (* Tolerances (the one judgement in C15).  float32: 5e-5 relative, the     *)
 (* criterion sasmodels itself applies between single and double results    *)
@@ -195,6 +205,7 @@ Apply(s, e) ==
     CASE e.ev = "Conv" -> LET v == ApplyConv(e) IN [st |-> s, bad |-> v.bad, ill |-> v.ill]
       [] e.ev = "Heads" -> [st |-> s, bad |-> ApplyHeads(e), ill |-> FALSE]
       [] e.ev = "Dtype" -> [st |-> s, bad |-> ApplyDtype(e), ill |-> FALSE]
+      [] e.ev = "DtypeC" -> [st |-> s, bad |-> ApplyDtypeC(e), ill |-> FALSE]
       [] e.ev = "Agree" -> [st |-> s, bad |-> ApplyAgree(e), ill |-> FALSE]
       [] e.ev = "Begin" -> [st |-> [tid |-> e.tid, skip |-> FALSE, next |-> 0, n |-> e.n,
                                     r |-> L0, d |-> L0, s |-> L0, q |-> L0],
